@@ -49,13 +49,17 @@ def gen_data(rng, nmax=1000):
     return X, w, dict(d=d, n=n, kind=kind, k=k, weights=wk)
 
 
-def psd_ok(C, scale):
+def psd_ok(C, xmax2):
+    """Positive semi-definite relative to the matrix's OWN size (a covariance of spread 1 inside a data set that spans 1e9 is
+    not allowed an eigenvalue of -400), plus the rounding floor of any centred computation, eps^2 * max|x|^2."""
     C = np.asarray(C)
+    floor = 1e-26 * xmax2
     if C.ndim == 1:
-        return bool(np.all(C >= -1e-12 * scale)), True
-    sym = bool(np.allclose(C, C.T, rtol=1e-9, atol=1e-12 * scale))
+        return bool(np.all(C >= -1e-9 * max(float(np.max(np.abs(C))), 1e-300) - floor)), True
+    own = max(float(np.max(np.abs(C))), 1e-300)
+    sym = bool(np.allclose(C, C.T, rtol=1e-9, atol=1e-12 * own + floor))
     ev = np.linalg.eigvalsh(0.5 * (C + C.T))
-    return bool(ev.min() >= -1e-9 * max(scale, ev.max(), 1e-300)), sym
+    return bool(ev.min() >= -1e-9 * max(ev.max(), 1e-300) - floor), sym
 
 
 def check_gmm(rng, X, w, desc):
@@ -89,7 +93,7 @@ def check_gmm(rng, X, w, desc):
         if not np.all(np.isfinite(C)):
             bad.append(("gmm-cov-nonfinite", f"component {k} covariance non-finite (weight {W[k]:.3g})"))
             continue
-        ok, sym = psd_ok(C, float(np.max(rng_) ** 2))
+        ok, sym = psd_ok(C, float(np.max(np.abs(X)) ** 2))
         if not sym:
             bad.append(("gmm-cov-asymmetric", f"component {k} covariance not symmetric"))
         if not ok:
@@ -210,7 +214,7 @@ def check_hier(rng, X, w, desc):
             if np.any(cen < pts.min(0) - tolb) or np.any(cen > pts.max(0) + tolb):
                 bad.append(("hier-centre-outside", f"cluster {k}: centre {cen} outside the bounding box of its own {len(pts)} training points"))
         if ct == "full":     # (for 'diag' the hierarchical model stores a (1,d) array / a broadcast d x d product: not a stated invariant)
-            ok, sym = psd_ok(cov, float(np.max(span_all) ** 2))
+            ok, sym = psd_ok(cov, float(np.max(np.abs(X)) ** 2))
             if cov.shape != (d, d) or not sym:
                 bad.append(("hier-cov-asymmetric", f"cluster {k}: covariance not a symmetric d x d matrix (normalize={norm})"))
             elif not ok:
